@@ -403,8 +403,13 @@ bool AnalyserInternalEquation::check(const AnalyserModelPtr &model,
             // The equation doesn't contain any initialised variables, which
             // means that it is overconstrained.
 
+            // Note: a state that is not initialised is, first of all, not
+            //       initialised, so leave it as it is.
+
             for (const auto &variable : mAllVariables) {
-                variable->mType = AnalyserInternalVariable::Type::OVERCONSTRAINED;
+                if (variable->mType != AnalyserInternalVariable::Type::SHOULD_BE_STATE) {
+                    variable->mType = AnalyserInternalVariable::Type::OVERCONSTRAINED;
+                }
             }
 
             return false;
